@@ -57,13 +57,18 @@ func VerifRun_C03c() {
 	// in expression position (strings), after a complete statement (comments between tokens), or inside a
 	// short string after a backslash
 	prefix := "a="
-	switch verifConcretize(verifRange("context", 0, 2)) {
+	suffix := ""
+	switch verifConcretize(verifRange("context", 0, 3)) {
 	case 1:
 		prefix = "a=1 "
 	case 2:
 		prefix = "a=\"\\" // inside a short string, right after a backslash (escapes, line continuations)
+	case 3:
+		// right after `--[` (a long comment only if a level and a second bracket follow), with an index
+		// expression further down in the file
+		prefix, suffix = "a=1 --[", "\nb=t[1]\n"
 	}
-	src := append([]byte(prefix), body...)
+	src := append(append([]byte(prefix), body...), []byte(suffix)...)
 	c03compare(src)
 }
 
